@@ -248,16 +248,18 @@ func (e Ev) Coq() string {
 
 // Scenario is one handshake with everything scripted but the faults.
 type Scenario struct {
-	Name    string     `json:"name"`
-	Entry   string     `json:"entry"` // finding-key component: role and handshake
-	Neg     string     `json:"neg"`   // std, ws, comp
-	Recv    bool       `json:"recv,omitempty"`
-	Bits    uint8      `json:"bits,omitempty"` // state passed to NewSession / ReceiveSession
-	Feats   []FeatSpec `json:"feats,omitempty"`
-	RWOnly  bool       `json:"rwonly,omitempty"`  // transport without deadlines
-	NoReseg bool       `json:"noreseg,omitempty"` // the scenario depends on what shares a Read: never re-segmented
-	TLS     bool       `json:"tls,omitempty"`     // live peer, real crypto/tls
-	HSBad   bool       `json:"hsbad,omitempty"`   // the certificate is not trusted: the handshake fails
+	Name          string     `json:"name"`
+	Entry         string     `json:"entry"` // finding-key component: role and handshake
+	Neg           string     `json:"neg"`   // std, ws, comp
+	Recv          bool       `json:"recv,omitempty"`
+	Bits          uint8      `json:"bits,omitempty"` // state passed to NewSession / ReceiveSession
+	Feats         []FeatSpec `json:"feats,omitempty"`
+	RWOnly        bool       `json:"rwonly,omitempty"`          // transport without deadlines
+	NoReseg       bool       `json:"noreseg,omitempty"`         // the scenario depends on what shares a Read: never re-segmented
+	Lite          int        `json:"lite,omitempty"`            // derived scenario: only the peer's bytes from this offset on are enumerated
+	WantStreamErr bool       `json:"want_stream_err,omitempty"` // the un-faulted run must return an error errors.As recognises as a stream.Error
+	TLS           bool       `json:"tls,omitempty"`             // live peer, real crypto/tls
+	HSBad         bool       `json:"hsbad,omitempty"`           // the certificate is not trusted: the handshake fails
 
 	Clear Stream `json:"-"`
 	TLSs  Stream `json:"-"` // the peer's stream on the TLS layer
